@@ -11,6 +11,11 @@ COMMON_ASSUMPTIONS = [
     "a case that hits the per-case wall-clock limit is counted as timed out, never as a violation",
 ]
 
+DEFAULT_LEVEL_TEXT = ("Generated histories (tens of thousands per quick run, far more in thorough) are executed against the assembled daemon; "
+                      "every quiescent point is judged against a reference model. Sampling of an unbounded space, not exhaustive.")
+DEFAULT_LEVEL_NOTE = "Trusts the simulated kernel's semantics, the harness codecs and the reference model; see evidence assumptions."
+NOT_APPLICABLE = {}
+
 def scen(driver, variants, quick, thorough, rule, level="exploration", **kw):
     d = dict(driver=driver, variants=variants, quick=quick, thorough=thorough, rule=rule, level=level)
     d.update(kw)
@@ -23,6 +28,13 @@ PROPS = {
                      "WebSocket peers with random event-batch grouping; every step is judged against the reference model and the per-fetch replica "
                      "rebuilt from received notifications. Non-trivial = at least one fetch, at least two notifications and at least one quiescent "
                      "point where a replica with >=2 entries was compared; distinct = distinct scenario hash (per variant)."),
+    "C03": scen("c03", ["default", "default", "tiny", "default"],
+                quick=dict(cases=1500, size=60), thorough=dict(cases=40000, size=90, budget_s=3000),
+                rule="rapidcheck-generated histories of set/call by several callers to several owners with owner replies (result, error, duplicate, "
+                     "forged id, another owner's id), timer expiry through the virtual clock, connects/disconnects of callers, owners and bystanders, "
+                     "in the shipped and in a 4-slot routing-table configuration; every step is judged against the reference model (routed message at "
+                     "the owner only, payload equality, one final answer with the original id, unique routed ids). Non-trivial = at least one request "
+                     "was routed and concluded by reply, timeout or owner disconnect; distinct = scenario hash."),
 }
 
 def plan_workers(spec, tier, nproc):
